@@ -92,3 +92,41 @@ func HarnessC13Highlight() {
 	}
 	verifrt.Assert(got == line, "the highlighted tokens do not add up to the source line")
 }
+
+// HarnessC13EmitAll: N info / warning diagnostics (N chosen among 0, 1, 49, 50, 51, 64), each on its own line, and ONE
+// error that sorts after all of them are emitted through the real bag and emitter: the output contains the error's
+// message and its location, and every one of the N notes.  (Whenever the compiler fails it prints at least one
+// error diagnostic - however many notes precede it.)
+func HarnessC13EmitAll() {
+	counts := []int{0, 1, 49, 50, 51, 64}
+	n := counts[verifrt.Choice("n", len(counts))]
+	warn := verifrt.Choice("warnings", 2) == 1
+	bag := NewDiagnosticBag("m.fer")
+	src := ""
+	for i := 0; i < n+1; i++ {
+		src += "let v = 1;\n"
+	}
+	bag.AddSourceContent("m.fer", src)
+	for i := 0; i < n; i++ {
+		d := NewInfo("note about a trailing comma")
+		if warn {
+			d = NewWarning("note about a trailing comma")
+		}
+		bag.Add(d.WithPrimaryLabel(zzLoc("m.fer", i+1), "here"))
+	}
+	bag.Add(NewError("the one real error ZQX").WithPrimaryLabel(zzLoc("m.fer", n+1), "wrong"))
+	out := bag.EmitAllToString() + verifrt.TakeOutput() // the interpreter captures Fprintf output centrally
+	verifrt.Assert(bag.HasErrors(), "CALIBRATION: the bag does not count the error")
+	verifrt.Assert(zzCount(out, "the one real error ZQX") >= 1, "a failed compilation prints no error diagnostic: the error is dropped from the output when many notes precede it")
+	verifrt.Assert(zzCount(out, "note about a trailing comma") >= n, "some diagnostics are dropped from the output")
+}
+
+func zzCount(s, sub string) int {
+	n := 0
+	for i := 0; i+len(sub) <= len(s); i++ {
+		if s[i:i+len(sub)] == sub {
+			n++
+		}
+	}
+	return n
+}
